@@ -155,7 +155,7 @@ func parseDNSSL(d rawDNSSL, maxInterval time.Duration) (*plugin.DNSSL, error) {
 	// By default, compute lifetime as recommended by radvd.
 	// As per RFC8106, the default lifetime SHOULD be at least
 	// 3 * MaxRtrAdvInterval.
-	lifetime, err := parseDuration(d.Lifetime, 3*maxInterval)
+	lifetime, err := parseLifetime(d.Lifetime, 3*maxInterval)
 	if err != nil {
 		return nil, fmt.Errorf("invalid lifetime: %v", err)
 	}
@@ -208,7 +208,7 @@ func parsePrefix(p rawPrefix, epoch time.Time) (*plugin.Prefix, error) {
 		return nil, errors.New("only ::/64 is permitted for inferring prefixes from interface addresses")
 	}
 
-	valid, err := parseDuration(p.ValidLifetime, 24*time.Hour)
+	valid, err := parseLifetime(p.ValidLifetime, 24*time.Hour)
 	if err != nil {
 		return nil, fmt.Errorf("invalid valid lifetime: %v", err)
 	}
@@ -217,7 +217,7 @@ func parsePrefix(p rawPrefix, epoch time.Time) (*plugin.Prefix, error) {
 		return nil, errors.New("valid lifetime must be non-zero")
 	}
 
-	preferred, err := parseDuration(p.PreferredLifetime, 4*time.Hour)
+	preferred, err := parseLifetime(p.PreferredLifetime, 4*time.Hour)
 	if err != nil {
 		return nil, fmt.Errorf("invalid preferred lifetime: %v", err)
 	}
@@ -292,7 +292,7 @@ func parseRoute(r rawRoute, epoch time.Time) (*plugin.Route, error) {
 		return nil, err
 	}
 
-	lt, err := parseDuration(r.Lifetime, 24*time.Hour)
+	lt, err := parseLifetime(r.Lifetime, 24*time.Hour)
 	if err != nil {
 		return nil, fmt.Errorf("invalid lifetime: %v", err)
 	}
@@ -323,7 +323,7 @@ func parseRDNSS(d rawRDNSS, maxInterval time.Duration) (*plugin.RDNSS, error) {
 	// If auto, compute lifetime as recommended by radvd.
 	// As per RFC8106, the default lifetime SHOULD be at least
 	// 3 * MaxRtrAdvInterval.
-	lifetime, err := parseDuration(d.Lifetime, 3*maxInterval)
+	lifetime, err := parseLifetime(d.Lifetime, 3*maxInterval)
 	if err != nil {
 		return nil, fmt.Errorf("invalid lifetime: %v", err)
 	}
